@@ -84,7 +84,18 @@ func policyFor(kind string) seccomp.Policy {
 		}
 		return seccomp.Policy{DefaultAction: seccomp.ActionAllow, Syscalls: []seccomp.SyscallGroup{{Action: seccomp.ActionErrno, NamesWithCondtions: ncs}}}
 	}
-	return seccomp.Policy{DefaultAction: seccomp.ActionAllow, Syscalls: []seccomp.SyscallGroup{{Action: seccomp.ActionErrno, Names: []string{"kexec_load", "swapon"}}}}
+	act := seccomp.ActionErrno
+	if strings.HasPrefix(kind, "valid:") {
+		// the same policy with a data-carrying action (errno value / trace data): such actions have
+		// no name in the text forms, so policies that differ only there are easy to conflate
+		n, _ := strconv.Atoi(strings.TrimPrefix(kind, "valid:"))
+		if n >= 0x10000 {
+			act = seccomp.ActionTrace | seccomp.Action(n&0xffff)
+		} else {
+			act = seccomp.ActionErrno | seccomp.Action(n)
+		}
+	}
+	return seccomp.Policy{DefaultAction: seccomp.ActionAllow, Syscalls: []seccomp.SyscallGroup{{Action: act, Names: []string{"kexec_load", "swapon"}}}}
 }
 
 func policyLen(kind string) int {
@@ -395,6 +406,9 @@ func request(h History) string {
 		case "invalid":
 			return "A"
 		}
+		if strings.HasPrefix(kind, "valid:") {
+			kind = "valid"
+		}
 		return fmt.Sprintf("P %d 1", lens[kind])
 	}
 	b2i := func(x bool) int {
@@ -432,6 +446,9 @@ func genHistory(r *rand.Rand, profile string) History {
 	}
 	for i := 0; i < nops; i++ {
 		op := Op{Op: "load", Thread: r.Intn(h.Threads), NNP: r.Intn(2) == 0, Flags: flagsPool[r.Intn(4)], Policy: "valid"}
+		if r.Intn(2) == 0 {
+			op.Policy = []string{"valid:1", "valid:2", "valid:13", "valid:38", "valid:65537", "valid:65538"}[r.Intn(6)]
+		}
 		switch profile {
 		case "load":
 			switch r.Intn(10) {
@@ -440,7 +457,8 @@ func genHistory(r *rand.Rand, profile string) History {
 			case 1:
 				op.Policy = "oversize"
 			case 2:
-				op.Flags = []uint32{1 << 10, 0x80000000, 1<<6 | 1}[r.Intn(3)]
+				// flag words the kernel refuses: an unknown bit alone and next to each known one
+				op.Flags = []uint32{1 << 10, 0x80000000, 1<<6 | 1, 1<<10 | 2, 1<<10 | 3, 1<<31 | 2, 1<<7 | 2 | 1}[r.Intn(7)]
 			case 3:
 				op = Op{Op: "supported", Thread: r.Intn(h.Threads)}
 			}
